@@ -150,9 +150,13 @@ def oblige_clause(I, frame, fi, env, oid, kind, tags, bounded=None):
     try:
         subs = ctx.sub_explore(lambda: I.truth(call_spec(I, fi, env)))
     except MissingState as e:
-        # the loop contract talks about state the code does not have (any more): the invariant cannot hold
+        # the loop contract talks about a local the code does not have (any more): renamed, or moved into an object
+        # field (then the C12 frame contract reports it).  Either way this contract cannot be evaluated on this
+        # version of the code: undecided, never a violation
         from .engine import Obligation
-        ctx.obligations.append(Obligation(oid, "frame", "failed", 0.0, "syntactic", str(e), None, ctx.path_index, tags))
+        ctx.obligations.append(Obligation(oid, "frame", "unknown", 0.0, "syntactic",
+                                          str(e) + " (the contract needs updating for this version of the code)",
+                                          None, ctx.path_index, tags))
         raise PathEnd("frame")
     for extra, v in subs:
         ctx.oblige(oid, kind, B.z_implies(B.z_and(extra), v), tags=tags, detail=bounded)
